@@ -94,7 +94,8 @@ theorem frame_ops (c : Cfg ρ) (s : St ρ) (h : Inv c s) (o : Nat) (x : OpSt)
     · subst hoo; simp [hb, this]
     · simp [hoo, this]
 
-theorem inv_step (c : Cfg ρ) (s s' : St ρ) (a : Act ρ) (h : Inv c s) (hs : step c s a = some s') : Inv c s' := by
+theorem inv_step (c : Cfg ρ) (hunbuf : c.handoffBuffered = false) (s s' : St ρ) (a : Act ρ) (h : Inv c s)
+    (hs : step c s a = some s') : Inv c s' := by
   cases a with
   | readRec r =>
     simp only [step, Option.some.injEq] at hs
@@ -219,8 +220,9 @@ theorem inv_step (c : Cfg ρ) (s s' : St ρ) (a : Act ρ) (h : Inv c s) (hs : st
         obtain ⟨rfl, _⟩ := hb
         simp [setOp, flush_cur_batch_nil]
     · simp at hs
+  | oRecv o => simp [step, hunbuf] at hs
   | sSend =>
-    simp only [step] at hs
+    simp only [step, hunbuf, Bool.false_eq_true, if_false] at hs
     split at hs
     · next o batch hpc =>
       split at hs
@@ -315,7 +317,7 @@ theorem logicalOf_append (a b : List (Act ρ)) : logicalOf (a ++ b) = logicalOf 
   | nil => rfl
   | cons x xs ih => cases x <;> simp [logicalOf, ih]
 
-theorem exec_inv (c : Cfg ρ) (as : List (Act ρ)) : ∀ s s', Inv c s → exec c s as = some s' →
+theorem exec_inv (c : Cfg ρ) (hunbuf : c.handoffBuffered = false) (as : List (Act ρ)) : ∀ s s', Inv c s → exec c s as = some s' →
     Inv c s' ∧ s'.logical = s.logical ++ logicalOf as := by
   induction as with
   | nil => intro s s' h he; simp [exec] at he; subst he; exact ⟨h, by simp [logicalOf]⟩
@@ -325,7 +327,7 @@ theorem exec_inv (c : Cfg ρ) (as : List (Act ρ)) : ∀ s s', Inv c s → exec 
     split at he
     · simp at he
     · next s1 hs1 =>
-      obtain ⟨h2, hl⟩ := ih s1 s' (inv_step c s s1 a h hs1) he
+      obtain ⟨h2, hl⟩ := ih s1 s' (inv_step c hunbuf s s1 a h hs1) he
       refine ⟨h2, ?_⟩
       rw [hl, step_logical c s s1 a hs1, List.append_assoc, ← logicalOf_append]; rfl
 
